@@ -46,6 +46,9 @@ func main() {
 		out := fs.String("out", "", "output directory")
 		shards := fs.Int("shards", 12, "number of shards")
 		steps := fs.Int("steps", 1000, "events per shard")
+		testdata := fs.String("testdata", "", "the repository's testdata directory (source of the vector shards)")
+		vshards := fs.Int("vshards", 0, "number of shards drawn from the repository's own test vectors")
+		vsteps := fs.Int("vsteps", 1000, "events per vector shard")
 		fs.Parse(os.Args[2:])
 		gen, ok := generators[*prop]
 		if !ok {
@@ -59,6 +62,14 @@ func main() {
 			g := &Gen{r: rand.New(rand.NewSource(*seed*1000 + int64(s))), w: w, tier: *tier, shard: s, nshards: *shards}
 			gen(g)
 			w.close()
+		}
+		if _, ok := vecDirs[*prop]; ok && *testdata != "" {
+			for s := 0; s < *vshards; s++ {
+				w := newWriter(filepath.Join(*out, fmt.Sprintf("shard_v%02d.ndjson", s)), *vsteps)
+				g := &Gen{r: rand.New(rand.NewSource(*seed*1000 + 500 + int64(s))), w: w, tier: *tier, shard: s, nshards: *vshards}
+				genVectors(g, *prop, *testdata)
+				w.close()
+			}
 		}
 	case "replay":
 		replayMain(os.Args[2:])
